@@ -16,8 +16,8 @@
 (***************************************************************************)
 EXTENDS Package, TraceBase
 
-VARIABLES wb, l
-tvars == <<wb, l>>
+VARIABLES wb, api, l          \* api: the workbook was built through the API alone (no corpus file loaded)
+tvars == <<wb, api, l>>
 
 (* ---- from the driver's dump to the state ------------------------------- *)
 StripD(x) == [r |-> x.r, c |-> x.c, k |-> x.k, v |-> x.v, f |-> x.f, sm |-> x.sm, sty |-> x.sty]
@@ -195,6 +195,15 @@ ContentProblems(E) ==
              ELSE {<<"defined names", "expected", AllNames(wb), "decoded", E.dec.names>>})
 ContentHits(E) == UNION {CellHits(E, s) \cup LinkHits(E, s) : s \in DOMAIN wb.sheets}
 
+(* ---- does SavePkg (the design TLC model-checks) still describe the writer?  Not a verdict about the code:
+   reported as "drift" and kept out of the violations by checks/c02.py ---------------------------------- *)
+Drift(p) ==
+  LET q == Skeleton(SavePkg(wb, [i \in DOMAIN wb.sheets |-> CanonOrd(wb.sheets[i])]))
+      o == Skeleton(p)
+  IN IF q = o THEN <<>>
+     ELSE <<"parts only in the design", q.parts \ o.parts, "only in the file", o.parts \ q.parts,
+            "relationships only in the design", q.rels \ o.rels, "only in the file", o.rels \ q.rels>>
+
 (* ---- one event per step -------------------------------------------------- *)
 Ev == Rec[l]
 
@@ -208,20 +217,23 @@ SaveStep(e) ==
            cont == IF offs.zip # {} \/ (offs.notwf # {} /\ "notwf" \in badc) THEN {} ELSE ContentProblems(e)
        IN /\ wb' = wb
           /\ IF badc = {} /\ cont = {}
-             THEN \A id \in ClauseHits(offs) \cup ContentHits(e) : KFHit(id, l)
+             THEN /\ \A id \in ClauseHits(offs) \cup ContentHits(e) : KFHit(id, l)
+                  /\ IF api /\ Drift(e.pkg) # <<>> THEN Mismatch(l, <<"drift", Drift(e.pkg)>>) ELSE TRUE
              ELSE Mismatch(l, <<"impl", [c \in badc |-> offs[c]], cont>>)
 
 Step(e) ==
-  IF e.a = "Fatal" THEN wb' = wb /\ Mismatch(l, <<"fatal", e.outcome>>)
-  ELSE IF e.a = "New" THEN wb' = EmptyBook
+  IF e.a = "Fatal" THEN wb' = wb /\ api' = api /\ Mismatch(l, <<"fatal", e.outcome>>)
+  ELSE IF e.a = "New" THEN wb' = EmptyBook /\ api' = TRUE
   ELSE IF e.a = "Open"
-  THEN IF e.outcome = "ok" THEN wb' = BookOfModel(e.model) ELSE wb' = EmptyBook /\ Mismatch(l, <<"gen", "open", e.outcome>>)
-  ELSE IF e.a = "Save" THEN SaveStep(e)
-  ELSE IF ~InContract(e) THEN wb' = wb /\ Mismatch(l, <<"gen", "out of contract", e.a>>)
-  ELSE IF e.outcome # "ok" THEN wb' = wb /\ Mismatch(l, <<"gen", "operation failed", e.a, e.outcome>>)
-  ELSE wb' = Expected(e)
+  THEN /\ api' = FALSE
+       /\ IF e.outcome = "ok" THEN wb' = BookOfModel(e.model) ELSE wb' = EmptyBook /\ Mismatch(l, <<"gen", "open", e.outcome>>)
+  ELSE /\ api' = api
+       /\ IF e.a = "Save" THEN SaveStep(e)
+          ELSE IF ~InContract(e) THEN wb' = wb /\ Mismatch(l, <<"gen", "out of contract", e.a>>)
+          ELSE IF e.outcome # "ok" THEN wb' = wb /\ Mismatch(l, <<"gen", "operation failed", e.a, e.outcome>>)
+          ELSE wb' = Expected(e)
 
-TraceInit == l = 1 /\ wb = EmptyBook
+TraceInit == l = 1 /\ wb = EmptyBook /\ api = TRUE
 TraceNext == l <= Len(Rec) /\ l' = l + 1 /\ Step(Ev)
 TraceSpec == TraceInit /\ [][TraceNext]_tvars
 =============================================================================
